@@ -185,7 +185,8 @@ var c15RemotePool = []c15Codec{
 	{Kind: "video", PT: 96, Name: "H264", Clock: 90000, Fmtp: "packetization-mode=1;profile-level-id=640c1f", FB: []string{"nack"}},              // partial only, collides with local VP8
 	{Kind: "video", PT: 45, Name: "AV1", Clock: 90000, FB: []string{"goog-remb", "nack"}},
 	{Kind: "video", PT: 119, Name: "x-unknown", Clock: 90000},
-	{Kind: "video", PT: 120, Name: "rtx", Clock: 90000, AptRel: "listed"},
+	// with feedback lines of its own (no local RTX registration has any: the intersection is empty)
+	{Kind: "video", PT: 120, Name: "rtx", Clock: 90000, AptRel: "listed", FB: []string{"nack", "goog-remb"}},
 	{Kind: "video", PT: 121, Name: "rtx", Clock: 90000, Fmtp: "apt=55"}, // apt to an unlisted payload
 	// a codec of one kind under the number a local codec of the OTHER kind is registered with (resolution
 	// of that number must find the negotiated codec also while the other kind is not negotiated at all)
